@@ -1,7 +1,7 @@
 (* The behaviour of the pinned snapshot BEFORE the three repairs in to_cif.hpp, kept for the record:
    (v0-a) BufOstream::pad was an unchecked memset;  (v0-b) write_cif_block_to_stream emitted separators for
    loops without values (for which nothing else is written);  (v0-c) a value starting with ';' could be put
-   in the first column. The witnesses below were replayed on the real code (ASan report / corrupted output /
+   in the first column;  (v0-d) a block without name (global_) was written as bare data_. The witnesses below were replayed on the real code (ASan report / corrupted output /
    "unterminated text field" on re-reading). *)
 From GV Require Import Cif.Quote Cif.Write Cif.Buf.
 Local Open Scope Z_scope.
